@@ -147,6 +147,10 @@ class MementoFunction(MementoFunctionBase):
     def hash_rules(self) -> List[HashRule]:
         """Ordered list of hash rules from which the hash was computed"""
         self._update_dependencies()
+        if self.explicit_version is not None:
+            # The version is declared, so the rules are not needed to compute it, but they
+            # still describe what this function depends on (e.g. for `dependencies()`).
+            self._recompute_version()
         return self._hash_rules
 
     explicit_version = None  # type: Optional[str]
